@@ -350,13 +350,21 @@ pub fn worker(prop: &str, tier: &str) {
             model::run_history(config_for(&prop), &history, &move |e: &Exec| menu(&p2, &t2, depth, e))
         }));
         match res {
-            Ok(r) => json!({
+            Ok(r) => {
+                if let Ok(f) = std::env::var("XSMC_DUMP_CANON") {
+                    use std::io::Write;
+                    if let Ok(mut fh) = std::fs::OpenOptions::new().create(true).append(true).open(format!("{}.{}", f, std::process::id())) {
+                        let _ = writeln!(fh, "{}\t{}", serde_json::to_string(&history).unwrap(), r.canon);
+                    }
+                }
+                json!({
                 "canon": common::hash_str(&r.canon),
                 "findings": r.findings,
                 "menu": r.menu,
                 "reads": r.reads,
                 "outcome": common::hash_str(&r.outcome),
-            }),
+            })
+            }
             Err(p) => {
                 let msg = p
                     .downcast_ref::<String>()
